@@ -10,6 +10,7 @@ depend on -> lean/GHEVerif/Gen/RowWise.lean (regenerated on every check).
   farStep          `[far_x, y, far_x + 1, y]`             in Shapes.point_intersect
   lineIntersectTol default `intersection_tolerance=1e-6`  of Shapes.line_intersect
   genDefaultTol    default `intersection_tolerance=1e-6`  of rowwise.gen_borehole_config
+  verticalRowRatio `row_space[1] == 0` (0) or `abs(row_space[1]) <= K * abs(row_space[0])` (K): when a row is vertical
   foptDefaultTol   default `intersection_tolerance=1e-5`  of rowwise.field_optimization_fr
   sweepStartDeg    `rotate_start = -90.0 * DEG_TO_RAD`    in rowwise.field_optimization_fr
   sortKeyIsProjection  sort_intersections orders by  inter[0]*cos(rotate) + inter[1]*sin(rotate)
@@ -138,6 +139,20 @@ def main(write, HEADER, parse, PKG):
     f = _fn(rw, "gen_borehole_config", "rowwise.py")
     out.append(f"def pointShift : Rat := {_rat(_num(_assign(f, 'point_shift', 'rowwise.py').value, 'rowwise.py'))}")
     out.append(f"def genDefaultTol : Rat := {_rat(_default(f, 'intersection_tolerance', 'rowwise.py'))}")
+    # the test that makes a row vertical: `row_space[1] == 0` (ratio 0) or `abs(row_space[1]) <= K * abs(row_space[0])` (ratio K)
+    ratio = None
+    for n in ast.walk(f):
+        if isinstance(n, ast.If) and isinstance(n.test, ast.Compare) and len(n.test.ops) == 1:
+            t = ast.unparse(n.test)
+            if t == "row_space[1] == 0":
+                ratio = Fraction(0)
+            elif isinstance(n.test.ops[0], ast.LtE) and ast.unparse(n.test.left) == "abs(row_space[1])":
+                r = n.test.comparators[0]
+                if isinstance(r, ast.BinOp) and isinstance(r.op, ast.Mult) and ast.unparse(r.right) == "abs(row_space[0])":
+                    ratio = _num(r.left, "rowwise.py")
+    if ratio is None:
+        raise Unsupported("rowwise.py", f, "gen_borehole_config: vertical-row test is neither `row_space[1] == 0` nor `abs(row_space[1]) <= K * abs(row_space[0])`")
+    out.append(f"def verticalRowRatio : Rat := {_rat(ratio)}")
 
     # Shapes.point_intersect: far_x = self.min_x - 10 ; ray [far_x, y, far_x + 1, y]
     f = _fn(sh, "point_intersect", "shape.py", cls="Shapes")
